@@ -32,18 +32,43 @@ def effSize (size : Option Nat) (numVisible : Nat) : Nat :=
   | some 0 => numVisible
   | some s => s
 
-/-- `generate_hilbert_space(size)`: all `2^size` rows, or `ValueError` beyond `max_size`. -/
+/-- one row as the code computes it: `((num & (1 << np.arange(size))) > 0)[::-1]` — mask bit `i` of `num`
+for `i = 0 … size-1` (little-endian), then reverse. (`neural_state.py:154` for `subspace_vector`,
+`:174` row `num` of the broadcast `dim[:, None] & …` followed by `[:, ::-1]`.)
+Integers are unbounded here; numpy uses int64, so the model is faithful for `size ≤ 62`, `num < 2^63`. -/
+def maskRow (size num : Nat) : List Bool :=
+  ((List.range size).map (fun i => decide (num &&& (1 <<< i) > 0))).reverse
+
+/-- the head of `generate_hilbert_space` (`neural_state.py:169-171`): effective size, or `ValueError`
+("Size of the Hilbert space is too large!") when it exceeds `max_size` (strictly). -/
+def spaceGuard (size : Option Nat) (numVisible : Nat) : Except PyErr Nat :=
+  let s := effSize size numVisible
+  if s > maxSize then .error .ValueError else .ok s
+
+/-- `generate_hilbert_space(size)` (`neural_state.py:157-176`): all `2^size` rows (`dim = arange(2**size)`),
+or `ValueError` beyond `max_size`. Lemma `maskRow_eq_map_spaceBit`: row `k` is `j ↦ spaceBit s k j`. -/
 def generateHilbertSpace (size : Option Nat) (numVisible : Nat) : Except PyErr (List (List Bool)) :=
-  let s := effSize size numVisible
-  if s > maxSize then .error .ValueError
-  else .ok ((List.range (2 ^ s)).map (fun k => (List.finRange s).map (spaceBit s k)))
+  match spaceGuard size numVisible with
+  | .error e => .error e
+  | .ok s => .ok ((List.range (2 ^ s)).map (maskRow s))
 
-/-- `subspace_vector(num, size)` — no size guard in the code. -/
+/-- `subspace_vector(num, size)` (`neural_state.py:133-155`) — no size guard in the code. -/
 def subspaceVector (num : Nat) (size : Option Nat) (numVisible : Nat) : List Bool :=
-  let s := effSize size numVisible
-  (List.finRange s).map (spaceBit s num)
+  maskRow (effSize size numVisible) num
 
-/-- `_convert_basis_element_to_index`: `Σ_j state[j] * 2^(n-1-j)` (powers `2 ** (arange(n,0,-1) - 1)`). -/
+/-- `powers = 2 ** (torch.arange(n, 0, -1) - 1)` (`unitaries.py:185`): entry `j` is `2^((n-j)-1)`. -/
+def indexPowers (n : Nat) : List Nat := (List.range n).map (fun j => 2 ^ ((n - j) - 1))
+
+/-- `_convert_basis_element_to_index(states)` for one 0/1 state (`unitaries.py:184-186`):
+`torch.matmul(states, powers)`, the dot product with `indexPowers`. -/
+def convertBasisElementToIndex (st : List Bool) : Nat :=
+  ((st.zip (indexPowers st.length)).map (fun bp => (if bp.1 then 1 else 0) * bp.2)).sum
+
+/-- the batched call form: `matmul` of an `(N, n)` matrix with `powers` is the row-wise map. -/
+def convertBasisBatch (sts : List (List Bool)) : List Nat := sts.map convertBasisElementToIndex
+
+/-- recursive (Horner-free) form of the same index: `Σ_j state[j] * 2^(n-1-j)`; equal to
+`convertBasisElementToIndex` by `convertBasisElementToIndex_eq` in `QV/Lemmas/Hilbert.lean`. -/
 def basisIndexL : List Bool → Nat
   | [] => 0
   | b :: rest => (if b then 2 ^ rest.length else 0) + basisIndexL rest
